@@ -19,7 +19,7 @@ N_THOROUGH = 12000
 EXPLANATION = ''
 
 def profiles(thorough):
-    p = Profile(nT=3, nS=4, nG=3, nC=8, nK=2, nF=6, specs={"fn": 4, "mem": 2, "trk": 2, "bref": 1, "nest": 2, "fwd": 1, "ownT": 2, "ownK": 2},
+    p = Profile(nT=3, nS=4, nG=3, nC=8, nK=2, nF=6, specs={"fn": 4, "mem": 2, "trk": 2, "bref": 1, "nest": 2, "fwd": 1, "ownT": 2, "ownK": 2, "ownG": 2},
                 body_prob=0.35, len=(15, 60 if not thorough else 150), empty_slot_connect=0.2,
                 w={"live?": 12, "connfn": 10, "conn": 6, "disc": 6, "clear": 2, "delG": 3, "cpG": 3, "emit": 7, "mkS": 5, "cpS": 3,
                    "asgS": 3, "delS": 3, "discS": 3, "delT": 4},
